@@ -416,17 +416,9 @@ class SessionHandler:
 
     @staticmethod
     def _verify_session_id(previous: str, current: str) -> None:
-        if previous is not None:
-            _previous = previous.split(";")
-
-            if _previous:
-                if current == _previous[0]:
-                    SessionHandler.id += 1
-                    return
-
-            SessionHandler.reset()
-            return
-        
+        #: The low 32 bits counter is never restarted within a process: 
+        #: restarting it when the identity changes (within the same second 
+        #: as a previous restart) would hand out the same Session-Id twice.
         SessionHandler.id += 1
 
 
